@@ -262,7 +262,7 @@ var faultPlaces = []struct {
 	{"breakif", "@each(v in [1, 2])x@breakIf(F)@end", true, false},
 	{"continueif", "@each(v in [1, 2])x@continueIf(F)y@end", true, false},
 	{"after-break", "@each(v in [1, 2])x@break{{ F }}@end", false, false},
-	{"dump", "@dump(F)", false, true},        // @dump shows what its argument evaluates to, a fault included: either
+	{"dump", "@dump(F)", false, true},           // @dump shows what its argument evaluates to, a fault included: either
 	{"dump-second", "@dump(1, F)", false, true}, // outcome is a defined result, only the contract is checked
 	{"array-element", "{{ [1, F, 3] }}", true, false},
 	{"object-value", "{{ q = {a: 1, b: F} }}ok", true, false},
